@@ -88,4 +88,12 @@ def history (j : Json) : Except String Json := do
     outs := outs.push out
   pure (Json.arr outs)
 
+/-- {a: [keys…], b: [keys…]} → does `merge` accept the two key orders (after / before the repair) -/
+def dictMergeJ (j : Json) : Except String Json := do
+  let ka ← (← getArr j "a").toList.mapM fun x => x.getStr?
+  let kb ← (← getArr j "b").toList.mapM fun x => x.getStr?
+  let a : KeyedSums Int := ka.map fun k => (k, 0)
+  let b : KeyedSums Int := kb.map fun k => (k, 0)
+  pure <| Json.mkObj [("mergeable", Json.bool (mergeable a b)), ("mergeable_old_rule", Json.bool (mergeableOld a b))]
+
 end Qv.Drv.C15
